@@ -1495,6 +1495,21 @@ def replay(ctx, payload):
                 print('child killed after 300 s')
             if etxt.strip():
                 print(etxt[-1500:])
+    elif isinstance(inp, dict) and 'imports' in inp and 'files' in inp:
+        print(run_star_impl(inp['files'], ['s%d' % v for v in range(len(inp['imports']))], inp['roots']))
+    elif isinstance(inp, dict) and 'files' in inp and 'query' in inp:
+        files = inp['files'] if isinstance(inp['files'], dict) else P.STAR_FAMILIES[inp['family']](inp['n'])[0]
+        d = write_project(files)
+        try:
+            proj = jedi.Project(d, sys_path=[d], smart_sys_path=False)
+            with StarCounter() as sc:
+                k, v, dt = sc.measure(lambda: run_query(jedi.Script(
+                    inp['source'], path=os.path.join(d, inp['module']), project=proj), inp['query'], inp['line'],
+                    inp['column']), 120)
+                print('outcome:', k, 'value:', v if k == 'ok' else repr(v), 'seconds: %.2f' % dt,
+                      'elements handed out by star_imports:', sc.items, 'function calls:', sc.calls)
+        finally:
+            shutil.rmtree(d, ignore_errors=True)
     elif 'source' in inp and 'query' in inp:
         with InferCounter() as counter:
             k, v, dt = guarded(lambda: run_query(jedi.Script(inp['source']), inp['query'], inp['line'],
